@@ -1,6 +1,7 @@
 package checks
 
 import (
+	"sort"
 	"time"
 
 	sdk "github.com/cosmos/cosmos-sdk/types"
@@ -36,4 +37,14 @@ func premiumAfter(a auctypes.Auction, now time.Time, dt int64, oracle uint64, du
 		return 0, false
 	}
 	return p, true
+}
+
+// sortedKeys returns the keys of a counter map in a fixed order.
+func sortedKeys(m map[string]int) []string {
+	out := make([]string, 0, len(m))
+	for k := range m {
+		out = append(out, k)
+	}
+	sort.Strings(out)
+	return out
 }
